@@ -29,7 +29,14 @@ RULE = ("conv: Hypothesis-drawn shapes (axes independent, 1..12 quick / 1..40 th
         "functions as list / tuple / 3-D ndarray, a prior call with other shape / dtype / shift / dx in the same process, every "
         "argument compared with a copy taken before the call (bucket ...:argument-modified), the same call repeated (must return "
         "the same image), kept results re-checked after later calls with other inputs and after editing a result in place "
-        "(...:result-overwritten / ...:aliased-state), positional and keyword forms.")
+        "(...:result-overwritten / ...:aliased-state), positional and keyword forms.  Callable transfer functions are real Python "
+        "callables generated from a drawn declaration: the frequency grids they name (every ordered subset of fx, fy, fr, ft - "
+        "(ft, fr), (fy, fx), (fr, fx, ft), ... - incl. one declared but unused grid), the order in which they declare them (any "
+        "permutation, not only the library's fx, fy, fr, ft), and the style of the declaration (positional-or-keyword, keyword-only, "
+        "first positional + rest keyword-only, defaults, functools.partial currying a parameter declared before / after the grids by "
+        "keyword or by position, bound method, object with __call__, an unrelated defaulted parameter between the grids); each "
+        "grid used contributes a distinct non-symmetric factor, so a grid bound to another parameter's slot changes the image at "
+        "O(1); the oracle evaluates the same formula by name on the harness' own grids.")
 ASSUMPTIONS = ["numpy.fft (pocketfft) and numpy.roll are correct", "objects, PSFs and transfer-function arrays have the same 2-D shape",
                "user-supplied frequency grids are given for both fx and fy, in the convention selected by `shift`",
                "sum(psf) > 0 for the MTF clauses (entries >= 0, at least one >= 0.05 of the peak before scaling)",
@@ -279,9 +286,43 @@ def check_impulse(case, ctx):
 
 
 # ---- apply_transfer_functions ----------------------------------------------------------------------
+FNAMES = ['fx', 'fy', 'fr', 'ft']
+# how a callable transfer function declares the frequency grids it wants (the library selects and hands them over *by name*):
+# plain positional-or-keyword parameters, keyword-only, first positional + rest keyword-only, defaults on all but the first,
+# functools.partial currying another parameter that is declared before / after the grids (by keyword: the grids that follow it
+# become keyword-only; or positionally), a bound method, an object with __call__, an unrelated defaulted parameter in between
+SIG_STYLES = ['plain', 'plain', 'kwonly', 'first+kwonly', 'defaults', 'partial-lead', 'partial-trail', 'partial-positional', 'method',
+              'callable-object', 'extra-default-mid']
+GAINS = [1.0, 2.0, -0.5]
+
+
+def _sig_fields():
+    """the declaration of a callable: order (an index into the permutations of its parameter names), style, curried gain"""
+    return {'order': st.integers(0, 23), 'style': st.sampled_from(SIG_STYLES), 'gain': st.sampled_from(GAINS)}
+
+
+def _mix_spec():
+    """a callable of a drawn, ordered subset of (fx, fy, fr, ft) - e.g. (ft, fr), (fy, fx), (fr, fx, ft) - that may declare one
+    grid it does not use; its value is a product of one distinct, non-symmetric factor per grid used"""
+    pos = U.nice_float(0.05, 3.0)
+    return st.fixed_dictionaries({'kind': st.just('mix'), 'declares': st.permutations(FNAMES).flatmap(
+        lambda p: st.integers(1, 4).map(lambda k: list(p[:k]))), 'skip': st.sampled_from([-1, -1, 0, 1, 2]), 's': pos,
+        'style': st.sampled_from(SIG_STYLES), 'gain': st.sampled_from(GAINS)})
+
+
+def _with_sig(d):
+    return st.fixed_dictionaries(dict(d, **_sig_fields()))
+
+
 def _tf_spec():
     pos = U.nice_float(0.05, 3.0)
     return st.one_of(
+        _mix_spec(), _mix_spec(), _mix_spec(),
+        _with_sig({'kind': st.just('all4'), 's': pos}),
+        _with_sig({'kind': st.just('sinc_fxfy'), 'w': pos, 'h': pos}),
+        _with_sig({'kind': st.just('ramp'), 'sx': U.nice_float(-3.0, 3.0), 'sy': U.nice_float(-3.0, 3.0)}),
+        _with_sig({'kind': st.just('gauss_fr'), 's': pos}),
+        _with_sig({'kind': st.just('ft_cos'), 'm': st.integers(1, 4), 'amp': U.nice_float(-0.9, 0.9)}),
         st.fixed_dictionaries({'kind': st.just('array_real'), 'salt': st.integers(0, 50)}),
         st.fixed_dictionaries({'kind': st.just('array_complex'), 'salt': st.integers(0, 50)}),
         st.fixed_dictionaries({'kind': st.just('ones')}),
@@ -299,12 +340,34 @@ def _tf_spec():
     )
 
 
-CALLABLE_KINDS = {'stored', 'ones_callable', 'gauss_fr', 'sinc_fxfy', 'smear', 'jitter', 'ft_cos', 'ramp', 'fx_only', 'fy_only', 'all4'}
+CALLABLE_KINDS = {'stored', 'ones_callable', 'gauss_fr', 'sinc_fxfy', 'smear', 'jitter', 'ft_cos', 'ramp', 'fx_only', 'fy_only', 'all4', 'mix'}
+# the grids each harness-made callable declares, in the library's canonical order (the drawn 'order' permutes them)
+NEEDS = {'ones_callable': ['fr'], 'gauss_fr': ['fr'], 'sinc_fxfy': ['fx', 'fy'], 'ramp': ['fx', 'fy'], 'ft_cos': ['ft'], 'fx_only': ['fx'],
+         'fy_only': ['fy'], 'all4': ['fx', 'fy', 'fr', 'ft']}
+
+
+def _mix_uses(spec):
+    d = list(spec['declares'])
+    k = spec.get('skip', -1)
+    return [n for i, n in enumerate(d) if not (len(d) > 1 and i == k)]
+
+
+def _gain_of(spec):
+    """the curried / defaulted extra parameter multiplies the transfer function (only in the styles that have one)"""
+    return spec.get('gain', 1.0) if spec.get('style', 'plain') in ('partial-lead', 'partial-trail', 'partial-positional', 'extra-default-mid') else 1.0
 
 
 def _tf_value(spec, fx, fy, fr, ft):
     """the transfer function on the given frequency arrays (harness' own formulas; any broadcastable shapes)"""
     k = spec['kind']
+    g = _gain_of(spec)
+    if g != 1.0:
+        return g * _tf_value(dict(spec, style='plain'), fx, fy, fr, ft)
+    if k == 'mix':
+        s_ = spec['s']
+        factor = {'fx': lambda: 1 / (1 + (s_ * fx) ** 2), 'fy': lambda: np.cos(0.7 * s_ * fy) + 1.5,
+                  'fr': lambda: np.exp(-(s_ * fr) ** 2) + 0.25, 'ft': lambda: 1 + 0.5 * np.sin(ft)}
+        return functools.reduce(lambda p, q: p * q, [factor[n]() for n in _mix_uses(spec)])
     if k == 'ones_callable':
         return np.ones(np.broadcast_shapes(np.shape(fx), np.shape(fy)))
     if k == 'gauss_fr':
@@ -328,29 +391,69 @@ def _tf_value(spec, fx, fy, fr, ft):
     raise ValueError(k)
 
 
+_PERMS = {}
+
+
+def _declared(spec):
+    """parameter names of the callable in the order it declares them"""
+    if spec['kind'] == 'mix':
+        return list(spec['declares'])
+    names = NEEDS[spec['kind']]
+    if len(names) not in _PERMS:
+        import itertools
+        _PERMS[len(names)] = list(itertools.permutations(range(len(names))))
+    perm = _PERMS[len(names)][spec.get('order', 0) % len(_PERMS[len(names)])]
+    return [names[i] for i in perm]
+
+
+def _build_callable(names, style, gain, core):
+    """a real Python callable whose signature declares the frequency grids `names` in that order and in the given style;
+    whatever it is bound to is forwarded to core(**{name: value}) - so a grid that arrives in another parameter's slot is
+    evaluated as that other grid, exactly as a user's function would"""
+    fwd = ', '.join('%s=%s' % (n, n) for n in names)
+    a = ', '.join(names)
+    dflt = ', '.join([names[0]] + ['%s=None' % n for n in names[1:]])
+    src = {
+        'plain': 'def tf(%s):\n    return _core(%s)' % (a, fwd),
+        'kwonly': 'def tf(*, %s):\n    return _core(%s)' % (a, fwd),
+        'first+kwonly': ('def tf(%s, *, %s):\n    return _core(%s)' % (names[0], ', '.join(names[1:]), fwd)) if len(names) > 1
+        else 'def tf(%s):\n    return _core(%s)' % (a, fwd),
+        'defaults': 'def tf(%s):\n    return _core(%s)' % (dflt, fwd),
+        'partial-lead': 'def tf(gain, %s):\n    return gain * _core(%s)' % (a, fwd),
+        'partial-positional': 'def tf(gain, %s):\n    return gain * _core(%s)' % (a, fwd),
+        'partial-trail': 'def tf(%s, gain):\n    return gain * _core(%s)' % (a, fwd),
+        'method': 'class K:\n    def tf(self, %s):\n        return _core(%s)' % (a, fwd),
+        'callable-object': 'class K:\n    def __call__(self, %s):\n        return _core(%s)' % (a, fwd),
+        'extra-default-mid': 'def tf(%s, gain=_gain%s):\n    return gain * _core(%s)' % (names[0], ''.join(', %s=None' % n for n in names[1:]), fwd),
+    }[style]
+    ns = {'_core': core, '_gain': gain}
+    exec(src, ns)
+    if style == 'partial-lead' or style == 'partial-trail':
+        return functools.partial(ns['tf'], gain=gain)
+    if style == 'partial-positional':
+        return functools.partial(ns['tf'], gain)
+    if style == 'method':
+        return ns['K']().tf
+    if style == 'callable-object':
+        return ns['K']()
+    return ns['tf']
+
+
 def _tf_callable(spec):
-    """what is handed to prysm: a function whose *signature* selects the frequency arrays it receives"""
+    """what is handed to prysm: a callable whose *signature* selects the frequency arrays it receives"""
     from prysm import degredations
     k = spec['kind']
     if k == 'smear':
         return functools.partial(degredations.smear_ft, width=spec['w'], height=spec['h'])
     if k == 'jitter':
         return functools.partial(degredations.jitter_ft, scale=spec['s'])
-    if k == 'ones_callable':
-        return lambda fr: np.ones(np.shape(fr))
-    if k == 'gauss_fr':
-        return lambda fr: _tf_value(spec, None, None, fr, None)
-    if k == 'sinc_fxfy' or k == 'ramp':
-        return lambda fx, fy: _tf_value(spec, fx, fy, None, None)
-    if k == 'ft_cos':
-        return lambda ft: _tf_value(spec, None, None, None, ft)
-    if k == 'fx_only':
-        return lambda fx: _tf_value(spec, fx, 0.0, None, None)
-    if k == 'fy_only':
-        return lambda fy: _tf_value(spec, 0.0, fy, None, None)
-    if k == 'all4':
-        return lambda fx, fy, fr, ft: _tf_value(spec, fx, fy, fr, ft)
-    raise ValueError(k)
+    plain = dict(spec, style='plain')
+
+    def core(fx=0.0, fy=0.0, fr=None, ft=None):
+        if k == 'ones_callable':
+            return np.ones(np.shape(fr))
+        return _tf_value(plain, fx, fy, fr, ft)
+    return _build_callable(_declared(spec), spec.get('style', 'plain'), spec.get('gain', 1.0), core)
 
 
 TF_DX = [1.0, 0.5, 0.1, 2.5, 1.0, 0.5, 1e-4, 3e3]
@@ -419,6 +522,7 @@ def check_tf(case, ctx):
     vals, tfs = [], []
     stored = []
     same_obj = {}
+    permuted_sig = False
     for i, s in enumerate(specs):
         if s['kind'] == 'stored':
             # a callable that hands back an array it keeps (a precomputed OTF): that array is the caller's as well
@@ -432,6 +536,15 @@ def check_tf(case, ctx):
             key = U.canon(s)
             if key not in same_obj:
                 same_obj[key] = _tf_callable(s)
+            if s['kind'] in NEEDS or s['kind'] == 'mix':
+                names = _declared(s)
+                canonical = names == [n for n in FNAMES if n in names]
+                ctx.label('sig:' + s.get('style', 'plain'), 'declares:%d' % len(names))
+                if len(names) > 1:
+                    ctx.label('order:' + ('canonical' if canonical else 'permuted'))
+                    permuted_sig = permuted_sig or not canonical
+                if s['kind'] == 'mix' and len(_mix_uses(s)) < len(names):
+                    ctx.label('declares-an-unused-grid')
             else:
                 ctx.label('same-callable-object-repeated')
             tfs.append(same_obj[key])
@@ -469,6 +582,8 @@ def check_tf(case, ctx):
     scale = float(np.max(np.abs(o)) * np.max(np.abs(T0))) + 1e-300
     desc = 'shape %s shift=%s grids=%s dx=%r %s object (%s, 1e%d) %s of tfs=%r' % (list(shape), shift, grids, dx, odt, olay, eo, container, specs)
     bucket = 'apply_tf:%s:%s' % (conv_name, 'user2d-grids' if grids == 'user2d' else ('callable' if has_callable else 'array'))
+    if permuted_sig and grids != 'user2d':
+        bucket += ':parameters-not-in-canonical-order'
     tb = '' if odt.kind == 'f' else ':%s-object' % odt
     # history inside one process: another valid call first (other convention / spacing / shape / precision)
     if pre != 'none':
@@ -510,7 +625,9 @@ def check_tf(case, ctx):
     for name, ones in (('float', np.ones(shape)), ('int', np.ones(shape, np.int64)), ('bool', np.ones(shape, bool))):
         ident = np.asarray(ctx.call(atf, o_in, dx_arg, [ones], shift=shift))
         U.check_close(ident, o, rti, 'apply_tf:%s:ones-identity' % conv_name, 'shape %s shift=%s %s object: all-ones %s array' % (list(shape), shift, odt, name), atol=rti * 0.1 * osc)
-    ident = np.asarray(ctx.call(atf, o_in, dx, [lambda fx, fy: np.ones(np.broadcast_shapes(np.shape(fx), np.shape(fy)))], shift=shift))
+    ones_fn = ((lambda fy, fx: np.ones(np.broadcast_shapes(np.shape(fx), np.shape(fy)))) if seed % 2 else
+               (lambda fx, fy: np.ones(np.broadcast_shapes(np.shape(fx), np.shape(fy)))))
+    ident = np.asarray(ctx.call(atf, o_in, dx, [ones_fn], shift=shift))
     U.check_close(ident, o, rti, 'apply_tf:%s:ones-identity' % conv_name, 'shape %s shift=%s %s object: all-ones callable' % (list(shape), shift, odt), atol=rti * 0.1 * osc)
     args_untouched('at the end')
     U.check_equal(np.asarray(got_raw), got_keep, 'apply_tf:result-overwritten', '%s: the first result changed during later calls' % desc)
